@@ -330,6 +330,10 @@ def repair_residue(molecule, ref_residue, include_graph):
         ref_node = reference.nodes[ref_idx].copy()
         if 'resid' in ref_node:
             del ref_node['resid']
+        if 'mutation' in ref_residue:
+            # The atoms a modification adds to the reference do not carry a
+            # resname; in a mutated residue they must not keep the old one.
+            ref_node.setdefault('resname', ref_residue['mutation'][0])
 
         if ref_idx in match:
             res_idx = match[ref_idx]
@@ -383,6 +387,8 @@ def repair_residue(molecule, ref_residue, include_graph):
             ref_node = reference.nodes[ref_idx].copy()
             if 'resid' in ref_node:
                 del ref_node['resid']
+            if 'mutation' in ref_residue:
+                ref_node.setdefault('resname', ref_residue['mutation'][0])
             node.update(ref_node)
             node['atomid'] = res_idx + 1
 
